@@ -74,6 +74,7 @@ typedef struct {
      nlopt_constraint *h;
      double *xtmp;
      double *lb, *ub;
+     const double *lb_orig, *ub_orig; /* bounds before rescaling */
      double *con_tol, *scale;
      nlopt_stopping *stop;
 } func_wrap_state;
@@ -99,6 +100,12 @@ static int func_wrap(int ni, int mi, double *x, double *f, double *con,
 	  else xtmp[j] = x[j];
      }
      nlopt_unscale(n, s->scale, xtmp, xtmp);
+     /* multiplying by the scale can round a clamped coordinate just
+	outside the original bounds again */
+     for (j = 0; j < n; ++j) {
+	  if (xtmp[j] < s->lb_orig[j]) xtmp[j] = s->lb_orig[j];
+	  else if (xtmp[j] > s->ub_orig[j]) xtmp[j] = s->ub_orig[j];
+     }
 
      *f = s->f(n, xtmp, NULL, s->f_data);
      if (nlopt_stop_forced(s->stop)) return 1;
@@ -198,6 +205,8 @@ nlopt_result cobyla_minimize(unsigned n, nlopt_func f, void *f_data,
      s.h = h;
      s.stop = stop;
      s.lb = s.ub = s.xtmp = s.con_tol = s.scale = NULL;
+     s.lb_orig = lb;
+     s.ub_orig = ub;
 
      s.scale = nlopt_compute_rescaling(n, dx);
      if (!s.scale) { ret = NLOPT_OUT_OF_MEMORY; goto done; }
